@@ -196,6 +196,17 @@ def kernels(isa, max_bumps, thorough):
                 for nb in range(max_bumps + 1):
                     for bs in itertools.product(bumps, repeat=nb):
                         out.append([x86_rmw_store(s1)] + list(bs) + [ld(s2)])
+        # a read-modify-write instruction loads what was stored before and then ends the search
+        # for that store like any other store to the same operand
+        for s1 in shapes[:6]:
+            for s2 in shapes[:6]:
+                for nb in range(min(max_bumps, 1) + 1):
+                    for bs in itertools.product(bumps, repeat=nb):
+                        out.append([st(s1)] + list(bs) + [x86_rmw_store(s2)])
+        for s1 in shapes[:4]:
+            for s2 in shapes[:4]:
+                for s3 in shapes[:4]:
+                    out.append([st(s1), x86_rmw_store(s2), ld(s3)])
     # a later store to the same operand ends the search; one to another operand does not
     for s1 in shapes[:4]:
         for s2 in shapes[:4]:
